@@ -9,6 +9,7 @@ yields no node twice; find is the first of findall; the node.find / node.findall
 """
 from __future__ import annotations
 
+import itertools
 from dataclasses import dataclass
 
 from .. import boot  # noqa: F401
@@ -88,6 +89,17 @@ def shaped_trees():
         wide,
         P(one=P(one=P(one=L())), items=[P(items=[wide])], child=L()),
     ]
+
+
+def chains(depth):
+    """All single-path trees root -f1-> P -f2-> ... -> leaf with every field choice at every level."""
+    out = []
+    for fs in itertools.product(("one", "items", "child"), repeat=depth):
+        d = L()
+        for f in reversed(fs):
+            d = P(**{f: [d] if f == "items" else d})
+        out.append(d)
+    return out
 
 
 def plan(tier, seed):
@@ -188,12 +200,15 @@ def workload(tier):
     yield "shaped-2", shaped, lambda: RX.paths(2, FIELDS_FULL, INDICES_FULL, CLASSES_FULL)
     yield "small-1", small, lambda: RX.paths(1, FIELDS_FULL, INDICES_FULL, CLASSES_FULL)
     yield "small-2", small, lambda: RX.paths(2, FIELDS_RED, INDICES_RED, CLASSES_RED)
+    # every 4-node chain x every 3-step path over all four field choices: a middle step that fits only deeper than depth 1
+    yield "chains-3", chains(3), lambda: RX.paths(3, [None, "one", "items", "child"], [None], CLASSES_RED)
     if tier == "thorough":
+        yield "chains-4", chains(4), lambda: RX.paths(4, [None, "one", "child"], [None], CLASSES_MIN + ["XP"])
         yield "shaped-3", shaped, lambda: RX.paths(3, FIELDS_RED, INDICES_RED + [12], CLASSES_RED)
-        yield "shaped-4", shaped[2:], lambda: RX.paths(4, FIELDS_MIN, INDICES_MIN, CLASSES_MIN)
-        yield "small-3", small, lambda: RX.paths(3, FIELDS_MIN, INDICES_MIN, CLASSES_MIN)
+        yield "shaped-4", shaped[2:], lambda: RX.paths(4, FIELDS_MIN, INDICES_MIN, CLASSES_MIN + ["XP"])
+        yield "small-3", small, lambda: RX.paths(3, FIELDS_RED, [None, 1], CLASSES_RED)
     else:
-        yield "shaped-3", shaped[2:5], lambda: RX.paths(3, FIELDS_MIN, INDICES_MIN + [12], CLASSES_MIN)
+        yield "shaped-3", shaped[2:6], lambda: RX.paths(3, FIELDS_MIN, INDICES_MIN, CLASSES_MIN + ["XP"])
 
 
 def variants(steps):
